@@ -75,6 +75,7 @@ def run_histories(state, info, rng, n_hist, length, log):
                     else:
                         n = rng.choice(names)
                     hist.append(("read", n))
+                    unset = [a for a in tuple(dag.sorted_ancestors[n]) + (n,) if isinstance(dag[a], IndepVariable) and st._values[a] is None]
                     try:
                         got = st[n]
                     except LeaspyInputError:
@@ -90,6 +91,12 @@ def run_histories(state, info, rng, n_hist, length, log):
                         return violations, evals, distinct, samples
                     evals += 1
                     distinct.add((n, len(hist)))
+                    # decided from the graph alone (not through the library's own evaluation, which a fresh State shares): an
+                    # independent variable that holds no value makes every read that needs it an input error
+                    if unset:        # (as it was BEFORE the read)
+                        violations.append(dict(key=f"read of {n} answered although the independent value {unset[0]} it needs is unset (a default or an old value was served)",
+                                               history=hist[:], got=str(got)[:200]))
+                        return violations, evals, distinct, samples
                     try:
                         want = from_scratch(st, n)
                     except LeaspyInputError:
